@@ -161,6 +161,7 @@ def run(ctx):
         except (AssertionError, KeyError, ValueError, TypeError, IndexError, ZeroDivisionError, AttributeError) as e:
             ctx.ob(key + '/paths', False, 'path structure', w, 'analysable', str(e))
     ctx.floor('roots analysed', done, len(roots))
+    ctx.floor('API uses generated (counted at implementation time)', len(roots), 92)
 
 
 def infl(ctx, key, rs, w, m, eps):
